@@ -31,6 +31,8 @@ type Case struct {
 	// a second time in the tree it produced
 	SelfAutobind bool `json:"self_autobind,omitempty"`
 	Again        bool `json:"again,omitempty"`
+	// MapInput: this input object type is bound to map[string]interface{}
+	MapInput string `json:"map_input,omitempty"`
 }
 
 var seq atomic.Int64
@@ -93,6 +95,10 @@ func Generate(c Case, keep bool) (dir string, f *vfrun.Failure) {
 		} else {
 			c.Config.ExtraModels = "  VhOverlap:\n    model: " + imp + ".VhOverlap\n    fields:\n      aAlias:\n        fieldName: a\n      bAlias:\n        fieldName: b\n"
 		}
+	}
+	if c.MapInput != "" {
+		// an input object bound to a map (the documented recipe for "which fields were sent")
+		c.Config.ExtraModels += "  " + c.MapInput + ":\n    model: \"map[string]interface{}\"\n"
 	}
 	if c.SelfAutobind {
 		// autobind names the package the models are generated into (as gqlgen's own init template
@@ -172,6 +178,8 @@ func classify(c Case, f *vfrun.Failure) {
 		f.Key = "funcsyntax.operation-directive"
 	case strings.Contains(f.Msg, "duplicate case") && strings.Contains(f.Msg, "in type switch"):
 		f.Key = "bind.colliding-type-names"
+	case strings.Contains(f.Msg, "non-unique key") && strings.Contains(f.Msg, "2map"):
+		f.Key = "bind.map-backed-input-in-list-and-single"
 	case strings.Contains(f.Msg, "invalid recursive type"):
 		f.Key = "modelgen.value-struct-fields-recursive-type"
 	case strings.Contains(f.Msg, "Middleware redeclared in this block") || (strings.Contains(f.Msg, "Middleware already declared at")):
@@ -268,6 +276,49 @@ func gen(t *rapid.T) Case {
 	}
 	c := Case{Files: s.Files, Config: cfggen.Draw(t, "gen", objectFields(schema))}
 	c.UserModel = rapid.IntRange(0, 2).Draw(t, "usermodel") == 0
+	var inputs []string
+	for n, d := range schema.Types {
+		if d.Kind == ast.InputObject && !d.BuiltIn {
+			inputs = append(inputs, n)
+		}
+	}
+	sort.Strings(inputs)
+	if vfrun.KnownListed("bind.map-backed-input-in-list-and-single") {
+		// known finding, excluded by construction: a map-backed input that occurs both inside a list
+		// type and outside one makes generation panic (the binder drops the list wrappers)
+		inList := map[string]bool{}
+		mark := func(t *ast.Type) {
+			if t.Elem != nil {
+				inList[t.Name()] = true
+			}
+		}
+		for _, d := range schema.Types {
+			for _, f := range d.Fields {
+				mark(f.Type)
+				for _, a := range f.Arguments {
+					mark(a.Type)
+				}
+			}
+		}
+		for _, d := range schema.Directives {
+			for _, a := range d.Arguments {
+				mark(a.Type)
+			}
+		}
+		var keep []string
+		for _, n := range inputs {
+			if !inList[n] {
+				keep = append(keep, n)
+			} else {
+				vfrun.Label("excluded-by-construction:bind.map-backed-input-in-list-and-single")
+			}
+		}
+		inputs = keep
+	}
+	if len(inputs) > 0 && rapid.IntRange(0, 2).Draw(t, "mapinput") == 0 {
+		c.MapInput = inputs[rapid.IntRange(0, len(inputs)-1).Draw(t, "whichinput")]
+		vfrun.Label("map-backed-input")
+	}
 	c.SelfAutobind = rapid.IntRange(0, 3).Draw(t, "selfautobind") == 0
 	c.Again = c.SelfAutobind || rapid.IntRange(0, 3).Draw(t, "again") == 0
 	if c.SelfAutobind {
